@@ -245,6 +245,7 @@ def cmd_check(args):
     jobs = make_jobs(base, n_ff, n_ft)
     chunk = max(1, min(64, len(jobs) // (workers * 4) or 1))
     wall_cap = args.wall_cap or (900 if tier == "quick" else 6 * 3600)
+    _watchdog(3 * wall_cap)
     t0 = time.monotonic()
     results = run_batch(pid, tier, jobs, workers, chunk, timeout_s=wall_cap, wall_cap=wall_cap)
     extra = {}
@@ -407,6 +408,21 @@ def cmd_selftest(args, n=None):
         return 2
     print("determinism self-test: %d runs x 3 fresh interpreters (PYTHONHASHSEED 0/12345, workers 1/16): identical" % len(outs[0]))
     return 0
+
+
+def _watchdog(seconds):
+    """last line of defence against a hang anywhere in the parent (pool management, minimisation, replay): the check
+    ends with a harness error (exit 2), never by sitting there and never with a verdict"""
+    import threading
+
+    def fire():
+        sys.stdout.write("HARNESS-ERROR: the check did not finish within %d s (watchdog)\n" % seconds)
+        sys.stdout.flush()
+        os._exit(2)
+
+    t = threading.Timer(seconds, fire)
+    t.daemon = True
+    t.start()
 
 
 def _scratch_base():
